@@ -831,6 +831,12 @@ func flowsFromDeep(v ssa.Value, pred func(ssa.Value) bool) bool {
 			return walk(x.Tuple)
 		case *ssa.Convert:
 			return walk(x.X)
+		case *ssa.Lookup:
+			return walk(x.X)
+		case *ssa.Index:
+			return walk(x.X)
+		case *ssa.IndexAddr:
+			return walk(x.X)
 		case *ssa.Phi:
 			for _, e := range x.Edges {
 				if walk(e) {
@@ -841,4 +847,88 @@ func flowsFromDeep(v ssa.Value, pred func(ssa.Value) bool) bool {
 		return false
 	}
 	return walk(v)
+}
+
+// reachesFrom: block to is reachable from block from along control-flow edges (from itself included)
+func reachesFrom(from, to *ssa.BasicBlock) bool {
+	seen := map[*ssa.BasicBlock]bool{}
+	var walk func(b *ssa.BasicBlock) bool
+	walk = func(b *ssa.BasicBlock) bool {
+		if b == to {
+			return true
+		}
+		if seen[b] {
+			return false
+		}
+		seen[b] = true
+		for _, s := range b.Succs {
+			if walk(s) {
+				return true
+			}
+		}
+		return false
+	}
+	return walk(from)
+}
+
+// appendOntoSized: positions where append() extends a slice that was made with a non-zero length in the same function
+// and is never written by index (the classic "make([]T, n) then append": n zero values come first)
+func appendOntoSized(u *Universe, f *ssa.Function) []string {
+	var out []string
+	for _, in := range instrsOf(f) {
+		mk, ok := in.(*ssa.MakeSlice)
+		if !ok {
+			continue
+		}
+		if k, isK := mk.Len.(*ssa.Const); isK && k.Int64() == 0 {
+			continue
+		}
+		indexed, appended := false, ""
+		seen := map[ssa.Value]bool{}
+		var follow func(v ssa.Value)
+		follow = func(v ssa.Value) {
+			if seen[v] {
+				return
+			}
+			seen[v] = true
+			refs := v.Referrers()
+			if refs == nil {
+				return
+			}
+			for _, r := range *refs {
+				switch x := r.(type) {
+				case *ssa.IndexAddr:
+					indexed = true
+				case *ssa.Phi:
+					follow(x)
+				case *ssa.Store:
+					// stored into a local variable: follow its loads
+					if al, isAl := x.Addr.(*ssa.Alloc); isAl && x.Val == v {
+						for _, r2 := range *al.Referrers() {
+							if ld, isLd := r2.(*ssa.UnOp); isLd {
+								follow(ld)
+							}
+						}
+					}
+				case *ssa.Call:
+					if bi, isB := x.Call.Value.(*ssa.Builtin); isB {
+						switch bi.Name() {
+						case "append":
+							if len(x.Call.Args) > 0 && x.Call.Args[0] == v {
+								appended = u.pos(x.Pos())
+								follow(x)
+							}
+						case "copy":
+							indexed = true
+						}
+					}
+				}
+			}
+		}
+		follow(mk)
+		if appended != "" && !indexed {
+			out = append(out, appended)
+		}
+	}
+	return out
 }
